@@ -49,6 +49,7 @@ def families(tier):
     add("a_p_bc", D["a_p_bc"], 0, 4)
     add("ab_p_c", D["ab_p_c"], 0, 4)
     add("a0_a_p_b_rev", D["a0_a_p_b_rev"], 3, 4)
+    add("a_dpull_b_c", D["a_dpull_b_c"], 3, 4)
     add("a0_a_p_b", D["a0_a_p_b"], 0, 4)
     add("two_pulls_parallel", D["two_pulls_parallel"], 0, 4)
     add("tap_shared_dfix", topos.TAPS["tap_shared_dfix"], 0, 4)
